@@ -29,5 +29,26 @@ PY
 else
   echo "HARNESS-BUILD-FAILED (the check would report harness-build broken, no-failing-input-found)"
 fi
+# --- translators + proofs against the patched tree (only for properties that have translators) ---
+TRS=$(python3 -c "import json;print(' '.join(json.load(open('/verif/props/$PROP.json')).get('translators',[])))")
+if [ -n "$TRS" ]; then
+  L=$WT/.fv-lean
+  rm -rf "$L"; mkdir -p "$L"; rsync -a /verif/lean/ "$L"/
+  for t in $TRS; do
+    python3 /verif/translate/$t --repo "$WT" --out "$L/FontVerif/Gen" --report "$WT/.fv-tr-$t.json" >/dev/null 2>"$WT/.fv-tr-$t.err"; rc=$?
+    python3 - "$WT/.fv-tr-$t.json" "$t" $rc <<'PY'
+import json,sys,os
+p,t,rc=sys.argv[1],sys.argv[2],sys.argv[3]
+r=json.load(open(p)) if os.path.exists(p) else {}
+print(f"translator {t}: rc={rc} obligations={r.get('obligations')} unparsed={json.dumps(r.get('unparsed'))[:600] if r.get('unparsed') else None}")
+PY
+  done
+  if diff -rq /verif/lean/FontVerif/Gen "$L/FontVerif/Gen" >/dev/null 2>&1; then echo "translator output: UNCHANGED"; else
+    echo "translator output: CHANGED:"; diff -rq /verif/lean/FontVerif/Gen "$L/FontVerif/Gen" | head -5
+    MODS=$(python3 -c "import json;print(' '.join(json.load(open('/verif/props/$PROP.json'))['props']))")
+    (cd "$L" && timeout 1500 lake build $MODS 2>&1 | grep -E "^error|error:|Build completed" | head -8)
+  fi
+  rm -rf "$L" "$WT"/.fv-tr-*
+fi
 git -C "$WT" checkout -q -- .
 rm -rf "$H" "$OUT"
